@@ -196,6 +196,12 @@ def writer(ctx):
             return
         fk = str(fifos[0])
         sink = key(v.top.attrs["sink"])
+        # a lossless in-order stage in front (sink connected whole into a Buffer / PipeValid / SyncFIFO): the pair is forked at that stage's output
+        for c_ in [l for l in v.leaves if l.kind == "connect" and l.inst == "" and key(l.value) == sink and not l.guards and not l.stmt.omit and l.stmt.keep is None]:
+            nm_ = key(c_.target)
+            if nm_.endswith(".sink") and any(str(o) == nm_[:-len(".sink")] and o.cls in ("Buffer", "PipeValid", "SyncFIFO") and o is not fifos[0] for o in v.d.objs):
+                ob.instance("%s: input stage in front of the fork" % tag, nm_[:-len(".sink")])
+                sink = nm_[:-len(".sink")] + ".source"
         fs, fc = fire_keys(v, sink), fire_keys(v, cmdn)
         push = prim_keys(v, [(Sym(fk + ".sink.valid"), True), (Sym(fk + ".sink.ready"), True)])
         ob.instance("%s: fork" % tag, {"fire(sink)": sorted(fs), "fire(cmd)": sorted(fc), "push(fifo)": sorted(push)})
